@@ -263,7 +263,12 @@ func (s *Stage) validateConstantStage(idx int, defaults Stage) (*Stage, error) {
 		s.Distribution = defaults.Distribution
 	}
 	if s.Jitter == nil {
-		s.Jitter = defaults.Jitter
+		if defaults.Jitter == nil {
+			noJitter := 0.0
+			s.Jitter = &noJitter
+		} else {
+			s.Jitter = defaults.Jitter
+		}
 	}
 	if s.Parameters == nil {
 		if defaults.Parameters == nil {
@@ -296,7 +301,12 @@ func (s *Stage) validateRampStage(idx int, defaults Stage) (*Stage, error) {
 		s.Distribution = defaults.Distribution
 	}
 	if s.Jitter == nil {
-		s.Jitter = defaults.Jitter
+		if defaults.Jitter == nil {
+			noJitter := 0.0
+			s.Jitter = &noJitter
+		} else {
+			s.Jitter = defaults.Jitter
+		}
 	}
 	if s.Parameters == nil {
 		if defaults.Parameters == nil {
@@ -329,7 +339,12 @@ func (s *Stage) validateStagedStage(idx int, defaults Stage) (*Stage, error) {
 		s.Distribution = defaults.Distribution
 	}
 	if s.Jitter == nil {
-		s.Jitter = defaults.Jitter
+		if defaults.Jitter == nil {
+			noJitter := 0.0
+			s.Jitter = &noJitter
+		} else {
+			s.Jitter = defaults.Jitter
+		}
 	}
 	if s.Parameters == nil {
 		if defaults.Parameters == nil {
@@ -386,7 +401,12 @@ func (s *Stage) validateGaussianStage(idx int, defaults Stage) (*Stage, error) {
 		s.Distribution = defaults.Distribution
 	}
 	if s.Jitter == nil {
-		s.Jitter = defaults.Jitter
+		if defaults.Jitter == nil {
+			noJitter := 0.0
+			s.Jitter = &noJitter
+		} else {
+			s.Jitter = defaults.Jitter
+		}
 	}
 	if s.Parameters == nil {
 		if defaults.Parameters == nil {
